@@ -230,8 +230,9 @@ class BehavioralRTLIRTypeCheckVisitorL2( BehavioralRTLIRTypeCheckVisitorL1 ):
         'the body and orelse of "if-exp" must have the same type!' )
 
     lhs_dtype, rhs_dtype = node.body.Type.get_dtype(), node.orelse.Type.get_dtype()
-    lhs_is_vector = isinstance(lhs_dtype, rdt.Vector)
-    rhs_is_vector = isinstance(rhs_dtype, rdt.Vector)
+    # A boolean branch (comparison result) is a one-bit value
+    lhs_is_vector = isinstance(lhs_dtype, (rdt.Vector, rdt.Bool))
+    rhs_is_vector = isinstance(rhs_dtype, (rdt.Vector, rdt.Bool))
     lhs_nbits, rhs_nbits = lhs_dtype.get_length(), rhs_dtype.get_length()
 
     # Unify body and orelse if both are rdt.Vector
